@@ -17,6 +17,16 @@ CLAIMED = {
             "table width (R3); carry/signed-carry/signed-borrow conditions equal the P-Code truth tables (R4); each arm is the apint primitive of its mnemonic with P-Code operand "
             "order (R5); operator traits delegate correctly (R6). A violated clause is a wrong folded value for some operand pair; the numeric behaviour of apint itself is trusted.",
             "3/C01", "apint::Int::is_positive == !is_negative (sign bit unset), read from apint 0.2 source"),
+    "C03": ("merge-implementation analysis on normalised THIR terms: per-field provenance of every merge result (both operands must reach each field through a join), join tables of the flat domains, delegation of merge_with to merge, strategy-by-strategy key/value flow of DomainMap",
+            "Decides the structural half of 'merge over-approximates both operands': every value-carrying field of a merged DataDomain / State is computed from BOTH operands through that field's own join (R1, R2, R4); "
+            "the flat domains' join tables send unequal operands to Top / keep the taint (R3); IntervalDomain::signed_merge re-validates both operands' widening hints (R3); each DomainMap merge strategy treats keys missing on one side as its documentation "
+            "states (R5). The numeric join of two intervals (signed_merge_and_widen, stride gcd) is not decided.",
+            "3/C03", ""),
+    "C04": ("delegation/field-effect analysis of `impl SpecializeByConditional for DataDomain<T>`: resolved callee names, write sets, and an implication test between the path condition of every Err result and the literal set of DataDomain::is_empty",
+            "Decides the DataDomain wrapper only: each add_*_bound refines the absolute part with the SAME-named method of the value domain and the caller's bound (R1), touches no other field (R2), and reports 'unsatisfiable' only "
+            "under a condition that implies emptiness of the whole value, tested after the update; is_empty tests every value-carrying field (R3). The numeric refinement of intervals (IntervalDomain::add_*_bound, stride rounding, "
+            "signed_intersect and its residue classes) quantifies over members x bounds and is NOT decided -- the seeded change for this property (rounding near the signed maximum) is such a case and is not detected.",
+            "3/C04", ""),
     "C05": ("field-visibility facts + enumeration of all mutation sites of the cell map by resolved receiver; per-insert justification analysis (dominating clear_interval with matching position/size, same-key replacement, overlap guards, uniform shift; !is_top guard, non-top-returning helper summary, copy, following clear_top_values); crate-wide callers of the mutable iterator",
             "Decides the store discipline that keeps an abstract memory region a set of non-overlapping, non-Top cells: the cell map is private and only written in mem_region.rs (R1); no insert can store Top (R2); "
             "no insert can create an overlap (R3); every caller of the mutable-iterator escape hatch cleans up Top values afterwards (R4). That reads return the last write and the arithmetic of the overlap "
